@@ -72,6 +72,12 @@ pub fn run(ctx: &Ctx, rep: &mut Report) {
     engine::drive(ctx, rep, "dense-drains", dense_case(false), cases, check_case);
     let cases = ctx.share(ctx.tier.pick(4_500, 30_000));
     engine::drive(ctx, rep, "dense-drains-large", dense_case(true), cases, check_case);
+    // The same cases while another object of the process holds tens to hundreds of MiB of arena memory.
+    let cases = ctx.share(ctx.tier.pick(4_000, 100_000));
+    {
+        let _ballast = super::iovec_sm::Ballast::new(super::iovec_sm::BALLAST_MIB);
+        engine::drive(ctx, rep, "dense-drains-with-ballast", dense_case(false), cases, check_case);
+    }
     // Long streams: the lag bound must not depend on the stream length.
     let (lo, hi, n) = ctx.tier.pick((2 * 1024, 24 * 1024, 24), (16 * 1024, 320 * 1024, 160));
     let cases = ctx.share(n);
@@ -104,6 +110,8 @@ fn check_stream_outcome(case: &StreamCase, stats: &streaming::StreamStats) -> Ca
 fn replay(_ctx: &Ctx, group: &str, case: &Value) -> CaseResult {
     if group == "long-streams" {
         check_stream(&parse_case::<StreamCase>(case)?)
+    } else if group.ends_with("with-ballast") {
+        super::iovec_sm::check_with_ballast(&parse_case::<CodecCase>(case)?, check_case)
     } else {
         check_case(&parse_case::<CodecCase>(case)?)
     }
